@@ -1,2 +1,71 @@
-(** C07 — statements only; see Proofs/. *)
-From RRSS Require Import Base.Outcome.
+(** C07 — Split, join, cast and rounding transform values exactly and only their target.
+    Statements only; proofs in Proofs/StringLaws.v. *)
+From Coq Require Import List ZArith NArith Bool.
+From RRSS Require Import Base.Outcome Base.Chars Base.F64 Base.F64Text Exec.Val Proofs.StringLaws.
+Import ListNotations.
+
+(** cut then join with the same delimiter (or none) restores the string: all strings, all delimiters *)
+Theorem C07_join_split_roundtrip :
+  forall s (d : option str),
+  (let* a := v_split (VStr s) (option_map VStr d) in v_join a (option_map VStr d)) = Ok (VStr s).
+Proof. exact join_split_roundtrip. Qed.
+
+Theorem C07_str_join_split : forall s d, d <> [] -> str_join d (str_split s d) = s.
+Proof. exact str_join_split. Qed.
+
+(** operands of the wrong kind are runtime errors, never values *)
+Theorem C07_split_wrong_kind :
+  forall v d, is_str v = false -> v_split v d = Err (InvalidOperationForType (lit "split") v).
+Proof. exact split_wrong_kind. Qed.
+
+Theorem C07_join_wrong_kind :
+  forall v d, is_arr v = false -> v_join v d = Err (InvalidOperationForType (lit "join") v).
+Proof. exact join_wrong_kind. Qed.
+
+Theorem C07_cast_wrong_kind :
+  forall v p, match v with VNum _ | VStr _ => False | _ => True end ->
+  v_cast v p = Err (InvalidOperationForType (lit "cast") v).
+Proof. exact cast_wrong_kind. Qed.
+
+Theorem C07_round_wrong_kind :
+  forall v, match v with VNum _ => False | _ => True end ->
+  v_round_up v = Err (InvalidOperationForType (lit "round up") v) /\
+  v_round_down v = Err (InvalidOperationForType (lit "round down") v) /\
+  v_round_nearest v = Err (InvalidOperationForType (lit "round nearest") v).
+Proof. exact round_wrong_kind. Qed.
+
+Theorem C07_split_bad_delimiter :
+  forall s d, is_str d = false -> v_split (VStr s) (Some d) = Err (InvalidSplitDelimiter d).
+Proof. exact split_bad_delimiter. Qed.
+
+Theorem C07_join_bad_element :
+  forall a dct d bad, (a <> [] \/ dct <> []) -> first_non_string (val_iter a dct) = Some bad ->
+  v_join (VArr a dct) (Some (VStr d)) = Err (InvalidArrayElementForJoin bad).
+Proof. exact join_bad_element. Qed.
+
+(** invalid radices are runtime errors (never a crash or a value) *)
+Theorem C07_cast_bad_radix :
+  forall s p,
+  match try_to_integer p with
+  | Some r => (r <? 2)%Z || (36 <? r)%Z = true
+  | None => True
+  end ->
+  v_cast (VStr s) (Some (VNum p)) = Err (InvalidStringToIntegerRadix (VNum p)).
+Proof. exact cast_bad_radix. Qed.
+
+(** a number casts to the character with that code point iff it is a Unicode scalar value *)
+Theorem C07_cast_codepoint :
+  forall n i, try_to_integer n = Some i ->
+  v_cast (VNum n) None =
+  if ((0 <=? i)%Z && (i <=? u32_max)%Z) && is_scalar_value (Z.to_N i)
+  then Ok (VStr [Z.to_N i]) else Err (ConvertingNumberToCharacterFailed n).
+Proof. exact cast_codepoint. Qed.
+
+Example C07_example :
+  v_split (VStr (lit "aXbXXc")) (Some (VStr (lit "X"))) = Ok (VArr [VStr (lit "a"); VStr (lit "b"); VStr []; VStr (lit "c")] []) /\
+  v_cast (VStr (lit "ff")) (Some (VNum (f_of_Z 16))) = Ok (VNum (f_of_Z 255)) /\
+  v_cast (VNum (f_of_Z 4294967361)) None = Err (ConvertingNumberToCharacterFailed (f_of_Z 4294967361)) /\
+  v_round_nearest (VNum (fdiv (f_of_Z (-5)) (f_of_Z 2))) = Ok (VNum (f_of_Z (-3))).
+Proof. vm_compute. repeat split; reflexivity. Qed.
+
+Print Assumptions C07_join_split_roundtrip.
